@@ -122,6 +122,10 @@ SHORT = {
     'C14-agent6': 'labelled writeBinaryEdgeList opens with ios::app (an existing file is not replaced)',
     'C15-agent6': 'binary loaders test end of file through peek() stored in a char (a record starting with byte 0xFF, source vertex 255 / 511, ends the load silently)',
     'C16-agent6': 'UndirectedWeightedGraph::removeDuplicateEdges caches the last weight by neighbour index across vertices (two duplicated pairs sharing the larger endpoint: total weight wrong)',
+    'C02-agent6': 'undirected removeSelfLoops returns early when the number of adjacency-list entries is even ("no self-loop": in fact an even number of them)',
+    'C18-agent6': 'getSubgraph / getSubgraphWithRemap test membership through a function-local static vector<bool> mask for subsets of 48 or more vertices (shared by all threads)',
+    'C19-agent6': 'findVertexPredecessors keeps its FIFO in a vector and compacts "every 128 vertices" but erases one entry too few (the 129th, 258th ... dequeued vertex is scanned twice)',
+    'C20-agent6': 'topology.hpp gains a free assertVertexInGraph(const Graph&, const VertexIndex&) next to the one in paths.hpp (ambiguous call once both headers are in one TU and an entry point of the second is instantiated)',
 }
 
 CONSEQUENCE = {
@@ -178,6 +182,7 @@ CONSEQUENCE = {
     'C11-agent6': 'missed as it stood: the graphs of C11 had at most 10 vertices, the many-path families belonged to C19 (work counts only) -> a C11 job on the layered / grid / diamond / ladder / clique-chain families at sizes where every pair has at most 4^6 or 3^8 shortest paths, complete path sets compared',
     'C12-agent6': "missed by C12 as it stood (C09 caught it): the searched graph was always the object the history was applied to -> `via`: 30 % of the cases search a copy, a rebuild through the container constructor (vector or list) from the graph's edges and weights, or a moved-to object",
     'C14-agent6': 'missed as it stood: every case wrote to a path that did not exist -> in a quarter of the round trips of C13 and C14 the output path already holds a file (junk, one record, or a longer file than the new one)',
+    'C18-agent6': 'missed as it stood: the shared graphs had 3-7 vertices -> a second C18 job on shared graphs with 66-100 vertices and hubs; its subgraph subsets hold four vertices in five (53-80 members)',
 }
 
 REVERTS = [
